@@ -217,7 +217,18 @@ pub fn check(rq: &RelationalQuery) -> Value {
     }
     ck.relation(&rq.relation, &declared, "main");
     let multi = ck.instances.values().filter(|&&n| n > 1).count();
+    let frame: Vec<Value> = rq
+        .relation
+        .columns
+        .iter()
+        .map(|c| match c {
+            RelationColumn::Single(Some(n)) => json!(n),
+            RelationColumn::Single(None) => Value::Null,
+            RelationColumn::Wildcard => json!({"wildcard": true}),
+        })
+        .collect();
     json!({
+        "frame": frame,
         "violations": ck.viol,
         "tables": rq.tables.len(),
         "pipelines": ck.n_pipelines,
